@@ -15,15 +15,16 @@ import (
 // Shared structural extraction for the two long-SMS splitters (used by C06, C07, C14).
 
 type genericSplit struct {
-	fn        *ssa.Function
-	ok        bool
-	problems  []string
-	idx       *ssa.Phi
-	msgCount  ssa.Value
-	ceilCall  *ssa.Call
-	slice     *ssa.Slice
-	header    []ssa.Value
-	headerPos token.Pos
+	fn         *ssa.Function
+	ok         bool
+	problems   []string
+	idx        *ssa.Phi
+	msgCount   ssa.Value
+	ceilCall   *ssa.Call
+	ceilInline bool
+	slice      *ssa.Slice
+	header     []ssa.Value
+	headerPos  token.Pos
 }
 
 type packedSplit struct {
@@ -75,13 +76,125 @@ func appendChain(start ssa.Value, n int) []ssa.Value {
 			break
 		}
 		vals := arrayStores(al)
-		if len(vals) != 1 {
+		if len(vals) == 0 {
 			break
 		}
-		out = append(out, vals[0])
+		// one append may add several octets: append(buf, a, b, c)
+		for _, v := range vals {
+			if v == nil {
+				return out
+			}
+			out = append(out, v)
+		}
 		cur = next
 	}
+	if len(out) > n {
+		out = out[:n]
+	}
 	return out
+}
+
+// headerOctetsBefore counts the single octets appended to a fresh buffer before call (an append of a payload): the
+// chain append(append(make(0,..), a, b), c ...) is walked backwards and the variadic element counts are summed.
+func headerOctetsBefore(part *ssa.Call) int {
+	n := 0
+	cur := part.Call.Args[0]
+	for {
+		call, ok := cur.(*ssa.Call)
+		if !ok {
+			break
+		}
+		if b, ok := call.Call.Value.(*ssa.Builtin); !ok || b.Name() != "append" {
+			break
+		}
+		if sl, ok := call.Call.Args[1].(*ssa.Slice); ok {
+			if al, ok := sl.X.(*ssa.Alloc); ok {
+				n += len(arrayStores(al))
+			} else {
+				return -1
+			}
+		} else {
+			return -1
+		}
+		cur = call.Call.Args[0]
+	}
+	return n
+}
+
+// intHelperKind classifies a small pure module function over ints: "min" (returns the smaller of its two parameters),
+// "max", "ceildiv" ((a + b - 1) / b), or "".
+func intHelperKind(fn *ssa.Function) string {
+	if fn == nil || len(fn.Params) != 2 || len(fn.Blocks) == 0 || fn.Signature.Results().Len() != 1 {
+		return ""
+	}
+	a, b := ssa.Value(fn.Params[0]), ssa.Value(fn.Params[1])
+	if !isIntType(a.Type()) || !isIntType(b.Type()) {
+		return ""
+	}
+	for _, blk := range fn.Blocks {
+		for _, ins := range blk.Instrs {
+			switch ins.(type) {
+			case *ssa.Call, *ssa.Store, *ssa.MapUpdate, *ssa.Go, *ssa.Defer, *ssa.Send:
+				return "" // not pure
+			}
+		}
+	}
+	p := prover.New(fn)
+	if len(fn.Blocks) == 1 {
+		if ret, ok := fn.Blocks[0].Instrs[len(fn.Blocks[0].Instrs)-1].(*ssa.Return); ok {
+			if q, isQ := binop(ret.Results[0], token.QUO); isQ && q.Y == b {
+				d := p.LinOf(q.X).Add(p.LinOf(a).Add(p.LinOf(b), 1).Add(prover.Const(1), -1), -1)
+				if d.IsConst() && d.C == 0 {
+					return "ceildiv"
+				}
+			}
+		}
+	}
+	isMin, isMax, n := true, true, 0
+	for _, blk := range fn.Blocks {
+		ret, ok := blk.Instrs[len(blk.Instrs)-1].(*ssa.Return)
+		if !ok {
+			continue
+		}
+		n++
+		r := ret.Results[0]
+		cands := []ssa.Value{r}
+		if ph, isPhi := r.(*ssa.Phi); isPhi {
+			cands = ph.Edges
+		}
+		for i, rv := range cands {
+			at := blk
+			if ph, isPhi := r.(*ssa.Phi); isPhi {
+				at = ph.Block().Preds[i]
+			}
+			var other ssa.Value
+			switch rv {
+			case a:
+				other = b
+			case b:
+				other = a
+			default:
+				return ""
+			}
+			var extra []prover.Fact
+			if ph, isPhi := r.(*ssa.Phi); isPhi {
+				extra = p.EdgeFacts(at, ph.Block())
+			}
+			if ok, _ := p.Prove(at, p.LinOf(other).Add(p.LinOf(rv), -1), extra); !ok {
+				isMin = false
+			}
+			if ok, _ := p.Prove(at, p.LinOf(rv).Add(p.LinOf(other), -1), extra); !ok {
+				isMax = false
+			}
+		}
+	}
+	switch {
+	case n > 0 && isMin && !isMax:
+		return "min"
+	case n > 0 && isMax && !isMin:
+		return "max"
+	}
+	return ""
 }
 
 func headerOf(fn *ssa.Function) ([]ssa.Value, token.Pos) {
@@ -207,7 +320,17 @@ func extractGenericSplit(c *core.Ctx) *genericSplit {
 			}
 		}
 	}
-	if g.ceilCall == nil {
+	// ... or written out: (len(data) + k - 1) / k
+	inlineCeil := false
+	if q, ok := binop(g.msgCount, token.QUO); ok && q.Y == k {
+		d := p.LinOf(q.X).Add(p.LenOf(data).Add(p.LinOf(k), 1).Add(prover.Const(1), -1), -1)
+		inlineCeil = d.IsConst() && d.C == 0
+	}
+	if g.ceilCall != nil && intHelperKind(g.ceilCall.Call.StaticCallee()) != "ceildiv" {
+		g.ceilCall = nil
+	}
+	g.ceilInline = inlineCeil
+	if g.ceilCall == nil && !inlineCeil {
 		g.problems = append(g.problems, "the part count is not ceil(len(data), perMsgLength)")
 	}
 	// begin = idx*k, end = min(idx*k + k, total): compared as linear forms over the monomial idx*k
@@ -270,6 +393,16 @@ func extractGenericSplit(c *core.Ctx) *genericSplit {
 						endOK = true
 					}
 				}
+			}
+		}
+	}
+	// ... or through a min helper: end = min((idx+1)*k, len(data)) in either argument order
+	if call, ok := g.slice.High.(*ssa.Call); ok && !endOK && mono.T != nil {
+		if cal := call.Call.StaticCallee(); cal != nil && len(call.Call.Args) == 2 && intHelperKind(cal) == "min" {
+			fullLin := mono.Add(p.LinOf(k), 1)
+			x, y := p.LinOf(call.Call.Args[0]), p.LinOf(call.Call.Args[1])
+			if (eqLin(x, fullLin) && eqLin(y, p.LenOf(data))) || (eqLin(y, fullLin) && eqLin(x, p.LenOf(data))) {
+				endOK = true
 			}
 		}
 	}
